@@ -34,3 +34,4 @@ import Mahotas.Proofs.CScalarTies.CurRank
 import Mahotas.Proofs.CScalarTies.DtIntersect
 import Mahotas.Proofs.CScalarTies.FastPositions
 import Mahotas.Proofs.CScalarTies.UnionFind
+import Mahotas.Proofs.CScalarTies.FastRow
